@@ -46,6 +46,7 @@ func c04CheckB2T(c C04B2T) *pbt.Violation {
 	doc, _ := rn.Encode(c.Tree, true, nil)
 	var text string
 	var err error
+	noiseNBT()
 	pv, stack := pbt.Try(func() {
 		switch c.Via {
 		case "root":
@@ -72,7 +73,9 @@ func c04CheckB2T(c C04B2T) *pbt.Violation {
 	if err != nil {
 		return pbt.V("c04.b2t.write-error", "any NBT value converts to text", "binary->text of %s failed: %v", c.Tree, err)
 	}
+	noiseNBT()
 	out, tt, err, pv, stack := snbtParse([]byte(text))
+	noiseNBT()
 	if pv != nil {
 		return pbt.V(pbt.PanicKey("snbt.parse", stack), "never panics", "parsing the writer's own %q panicked: %v\n%s", clipS(text), pv, stack)
 	}
@@ -187,7 +190,9 @@ type C04T2B struct {
 }
 
 func c04CheckT2B(c C04T2B) *pbt.Violation {
+	noiseNBT()
 	out, tt, err, pv, stack := snbtParse(c.Text)
+	noiseNBT()
 	if pv != nil {
 		return pbt.V(pbt.PanicKey("snbt.parse", stack), "never panics", "parsing %q panicked: %v\n%s", clipS(string(c.Text)), pv, stack)
 	}
